@@ -1,5 +1,6 @@
 import Tickit.Model.Rect
 import Tickit.Model.VT
+import Tickit.Model.Utf8
 /-
   Byte-exact model of the drawing requests of /repo/src/termdriver-xterm.c (`print`, `goto_abs`, `move_rel`,
   `scrollrect`, `erasech`, `clear`) as reached through the `tickit_term_*` entry points of /repo/src/term.c,
@@ -213,6 +214,15 @@ def chpenBytes (colon : Bool) (params : List SgrParam) (final : PenCache) : List
   else if !final.nondefault then csi [0x6d]
   else csi (renderSgr colon params)
 
+/-- The parameters `chpen` collects for the delta of a `setpen`: `o` = the eight attributes this engine never sets
+    were absent from the cache (they are all in the delta, with their default values), in attribute order. -/
+def setpenParams (o bgChanged rvChanged : Bool) (bgv : Int) (rvv : Bool) : List SgrParam :=
+  (if o then [⟨39, false⟩] else []) ++                   -- fg
+  (if bgChanged then bgParams bgv else []) ++             -- bg
+  (if o then [⟨22, false⟩, ⟨24, false⟩, ⟨23, false⟩] else []) ++   -- bold, under, italic
+  (if rvChanged then [⟨if rvv then 7 else 27, false⟩] else []) ++  -- reverse
+  (if o then [⟨29, false⟩, ⟨10, false⟩, ⟨25, false⟩, ⟨75, false⟩] else [])  -- strike, altfont, blink, sizepos
+
 /-- `tickit_term_setpen` followed by the driver's `chpen`: `(new cache, bytes)`. -/
 def setpen (caps : Caps) (cache : PenCache) (pen : PenReq) : PenCache × List UInt8 :=
   let bgv := pen.bg.getD (-1)
@@ -220,25 +230,22 @@ def setpen (caps : Caps) (cache : PenCache) (pen : PenReq) : PenCache × List UI
   let bgChanged : Bool := decide (cache.bg ≠ some bgv)
   let rvChanged : Bool := decide (cache.rv ≠ some rvv)
   let cache' : PenCache := ⟨true, some bgv, some rvv⟩
-  let o := !cache.others
-  let params : List SgrParam :=
-    (if o then [⟨39, false⟩] else []) ++                   -- fg
-    (if bgChanged then bgParams bgv else []) ++             -- bg
-    (if o then [⟨22, false⟩, ⟨24, false⟩, ⟨23, false⟩] else []) ++   -- bold, under, italic
-    (if rvChanged then [⟨if rvv then 7 else 27, false⟩] else []) ++  -- reverse
-    (if o then [⟨29, false⟩, ⟨10, false⟩, ⟨25, false⟩, ⟨75, false⟩] else [])  -- strike, altfont, blink, sizepos
-  (cache', chpenBytes caps.colon params cache')
+  (cache', chpenBytes caps.colon (setpenParams (!cache.others) bgChanged rvChanged bgv rvv) cache')
+
+/-- `tickit_term_chpen` copies an attribute the pen has unless the cache has it with an equal value. -/
+def changedBy {α : Type} [DecidableEq α] (cache pen : Option α) : Bool :=
+  match pen with
+  | some v => decide (cache ≠ some v)
+  | none => false
 
 /-- `tickit_term_chpen` followed by the driver's `chpen`. -/
 def chpen (caps : Caps) (cache : PenCache) (pen : PenReq) : PenCache × List UInt8 :=
-  let bgChanged : Bool := match pen.bg with | some v => decide (cache.bg ≠ some v) | none => false
-  let rvChanged : Bool := match pen.rv with | some v => decide (cache.rv ≠ some v) | none => false
+  let bgChanged : Bool := changedBy cache.bg pen.bg
+  let rvChanged : Bool := changedBy cache.rv pen.rv
   let cache' : PenCache :=
     ⟨cache.others, if bgChanged then pen.bg else cache.bg, if rvChanged then pen.rv else cache.rv⟩
-  let params : List SgrParam :=
-    (if bgChanged then bgParams (pen.bg.getD (-1)) else []) ++
-    (if rvChanged then [⟨if pen.rv.getD false then 7 else 27, false⟩] else [])
-  (cache', chpenBytes caps.colon params cache')
+  (cache', chpenBytes caps.colon
+    (setpenParams false bgChanged rvChanged (pen.bg.getD (-1)) (pen.rv.getD false)) cache')
 
 /-! ### `start`: the probe string sent when the output method is set -/
 
@@ -352,6 +359,44 @@ def ScrollOK (rect : Rect) (downward rightward : Int) (vt vt' : VTState) : Prop 
   sameModes vt vt' ∧ vt'.grid = scrollGrid rect downward rightward vt ∧
   0 ≤ vt'.row ∧ vt'.row < vt.lines ∧ 0 ≤ vt'.col ∧ vt'.col < vt.cols
 
+/-- The library's own UTF-8 encoding (`tickit_utf8_put`, Model/Utf8.lean) of a text given as code points. -/
+def utf8 (cps : List Nat) : List UInt8 := cps.flatMap fun cp => (Utf8.putBytes cp).map UInt8.ofNat
+
+/-- A code point a text may contain: not a C0/C1 control or DEL, inside the Unicode range. -/
+def Printable (cp : Nat) : Prop := 0x20 ≤ cp ∧ ¬ (0x7f ≤ cp ∧ cp < 0xa0) ∧ cp < 0x110000
+instance (cp : Nat) : Decidable (Printable cp) := by unfold Printable; exact inferInstance
+
+/-- The cells one character occupies: nothing for a zero-width (combining) one, its glyph for a width-1 one,
+    glyph + continuation cell `0` for a double-width one. -/
+def cellsOf (cp : Nat) : List Nat :=
+  match VT.width cp with
+  | 0 => []
+  | 1 => [cp]
+  | _ => [cp, 0]
+
+/-- The cells a text occupies; its length is the sum of the widths. -/
+def textCells (cps : List Nat) : List Nat := cps.flatMap cellsOf
+
+/-- Grid after writing `cells` from the cursor with the current attributes. -/
+def cellsGrid (cells : List Nat) (vt : VTState) : Int → Int → Cell := fun l c =>
+  if l = vt.row ∧ vt.col ≤ c ∧ c < vt.col + cells.length then ⟨cells.getD (c - vt.col).toNat 32, vt.bg, vt.rv⟩
+  else vt.grid l c
+
+/-- Screen after writing `cells` (at least one, all fitting in the row) from a cursor with no wrap pending: the
+    cursor advances by their number, or stays on the last column with the wrap pending when they end at the edge. -/
+def placeCells (cells : List Nat) (vt : VTState) : VTState :=
+  { vt with grid := cellsGrid cells vt,
+            col := if vt.col + cells.length < vt.cols then vt.col + cells.length else vt.cols - 1,
+            pendingWrap := decide (vt.col + cells.length = vt.cols) }
+
+/-- The terminal's rendering state agrees with the driver's cached pen: reverse video as `erasech` reads it, and the
+    background whenever the cache knows it. -/
+def PenInv (cache : PenCache) (vt : VTState) : Prop :=
+  vt.rv = cache.reverse ∧ (∀ v, cache.bg = some v → vt.bg = v)
+
+/-- A pen whose background, if any, is the default or a palette index. -/
+def PenOK (pen : PenReq) : Prop := ∀ v, pen.bg = some v → -1 ≤ v ∧ v ≤ 255
+
 /-- Margins are the full screen. -/
 def marginsReset (vt : VTState) : Prop :=
   vt.top = 0 ∧ vt.bottom = vt.lines - 1 ∧ vt.left = 0 ∧ vt.right = vt.cols - 1
@@ -387,8 +432,9 @@ instance (caps : Caps) (termCols : Int) (rect : Rect) (downward : Int) :
 def InContract (fx : Fixes) (d : Drv) (vt : VT.VTState) : Request → Prop
   | .goto line col => (line = -1 ∨ (0 ≤ line ∧ line < vt.lines)) ∧ (col = -1 ∨ (0 ≤ col ∧ col < vt.cols))
   | .move dn rt => (0 ≤ vt.row + dn ∧ vt.row + dn < vt.lines) ∧ (0 ≤ vt.col + rt ∧ vt.col + rt < vt.cols)
-  | .print s n => vt.pendingWrap = false ∧ n = s.length ∧ s ≠ [] ∧ (∀ b ∈ s, 0x20 ≤ b ∧ b < 0x7f) ∧
-      vt.col + s.length ≤ vt.cols
+  | .print s n => vt.pendingWrap = false ∧ n = s.length ∧
+      ∃ cps : List Nat, s = Spec.utf8 cps ∧ (∀ cp ∈ cps, Spec.Printable cp) ∧
+        vt.col + (Spec.textCells cps).length ≤ vt.cols
   | .erasech n me => vt.pendingWrap = false ∧ 1 ≤ n ∧ vt.col + n ≤ vt.cols ∧
       (fx.eraseKeepsCount = false → d.pen.reverse = true → me = .no → n ≤ 64) ∧
       (d.pen.reverse = true → me = .no → vt.col + n = vt.cols → vt.col = 0)
@@ -399,9 +445,8 @@ def InContract (fx : Fixes) (d : Drv) (vt : VT.VTState) : Request → Prop
 def StepOK (fx : Fixes) (d : Drv) (vt vt' : VT.VTState) : Request → Prop
   | .goto line col => vt' = Spec.goto line col vt
   | .move dn rt => vt' = Spec.move dn rt vt
-  | .print s _ => vt' = { vt with grid := Spec.printGrid (s.map UInt8.toNat) vt,
-                                   col := if vt.col + s.length < vt.cols then vt.col + s.length else vt.cols - 1,
-                                   pendingWrap := decide (vt.col + s.length = vt.cols) }
+  | .print s _ => ∀ cps : List Nat, s = Spec.utf8 cps → (∀ cp ∈ cps, Spec.Printable cp) →
+      vt.col + (Spec.textCells cps).length ≤ vt.cols → vt' = Spec.placeCells (Spec.textCells cps) vt
   | .erasech n me => Spec.EraseOK n me vt vt'
   | .clear => vt' = { vt with grid := Spec.clearGrid vt }
   | .scroll r dn rt =>
@@ -421,5 +466,42 @@ def AllStepsOK (fx : Fixes) (d : Drv) : VT.VTState → List Request → Prop
 def runRequests (fx : Fixes) (d : Drv) : VT.VTState → List Request → VT.VTState
   | vt, [] => vt
   | vt, q :: qs => runRequests fx d (VT.run (request fx d q).2 vt) qs
+
+/-! ### Histories: drawing requests interleaved with pen changes -/
+
+inductive Op
+  | req (q : Request)
+  | setpen (p : PenReq)
+  | chpen (p : PenReq)
+deriving Repr
+
+/-- One operation on (driver-side state, screen). -/
+def stepOp (fx : Fixes) (s : Drv × VT.VTState) : Op → Drv × VT.VTState
+  | .req q => (s.1, VT.run (request fx s.1 q).2 s.2)
+  | .setpen p => ({ s.1 with pen := (setpen s.1.caps s.1.pen p).1 }, VT.run (setpen s.1.caps s.1.pen p).2 s.2)
+  | .chpen p => ({ s.1 with pen := (chpen s.1.caps s.1.pen p).1 }, VT.run (chpen s.1.caps s.1.pen p).2 s.2)
+
+def OpInContract (fx : Fixes) (s : Drv × VT.VTState) : Op → Prop
+  | .req q => InContract fx s.1 s.2 q
+  | .setpen p => Spec.PenOK p
+  | .chpen p => Spec.PenOK p
+
+/-- A request had exactly its effect; a pen change touched nothing but the rendering attributes. -/
+def OpOK (fx : Fixes) (s s' : Drv × VT.VTState) : Op → Prop
+  | .req q => StepOK fx s.1 s.2 s'.2 q
+  | .setpen _ => s'.2 = { s.2 with bg := s'.2.bg, rv := s'.2.rv }
+  | .chpen _ => s'.2 = { s.2 with bg := s'.2.bg, rv := s'.2.rv }
+
+def AllOpsInContract (fx : Fixes) : Drv × VT.VTState → List Op → Prop
+  | _, [] => True
+  | s, o :: os => OpInContract fx s o ∧ AllOpsInContract fx (stepOp fx s o) os
+
+def AllOpsOK (fx : Fixes) : Drv × VT.VTState → List Op → Prop
+  | _, [] => True
+  | s, o :: os => OpOK fx s (stepOp fx s o) o ∧ AllOpsOK fx (stepOp fx s o) os
+
+def runOps (fx : Fixes) : Drv × VT.VTState → List Op → Drv × VT.VTState
+  | s, [] => s
+  | s, o :: os => runOps fx (stepOp fx s o) os
 
 end Tickit.XTermDrv
